@@ -63,12 +63,13 @@ def anchors():
     return out
 
 
-OPS = ["ads_insert", "ads_overwrite", "mat_insert", "mat_overwrite", "iso_insert_auto", "iso_insert_plain", "ads_delete", "mat_delete", "iso_delete", "type_insert", "type_delete", "iso_insert_auto"]
+OPS = ["ads_insert", "ads_overwrite", "mat_insert", "mat_overwrite", "iso_insert_auto", "iso_insert_plain", "ads_delete", "mat_delete", "iso_delete", "type_insert", "type_delete", "iso_insert_auto",
+       "ads_overwrite_same_types", "mat_overwrite_same_types"]
 
 
 def gen_cases(tier, seed):
     r = gen.rng(seed, "c09")
-    n = 16 if tier == "quick" else 220
+    n = 18 if tier == "quick" else 224
     for i in range(n):
         yield {"kind": "instance", "op": OPS[i % len(OPS)], "seed": r.randrange(1 << 30), "death": "all"}
     # long recordings: the transaction spills pages into the file before the commit; only process death, at the late statements
@@ -115,6 +116,16 @@ def make_instance(case):
         prelude.append({"fn": "adsorbate_to_db", "item": ads[2]})
         new = dict(ads[2], props=dict(ads[2]["props"], molar_mass=99.5, brand_new_property_type="text value"))
         target = {"fn": "adsorbate_to_db", "item": new, "overwrite": True}
+    elif op == "ads_overwrite_same_types":
+        # new values for the properties the stored adsorbate already has: no property type is created on the way
+        prelude.append({"fn": "adsorbate_to_db", "item": ads[2]})
+        newp = {k: ((v * 1.5 + 1) if isinstance(v, (int, float)) and not isinstance(v, bool) else (str(v) + "-new" if isinstance(v, str) else v)) for k, v in ads[2]["props"].items()}
+        target = {"fn": "adsorbate_to_db", "item": dict(ads[2], props=newp), "overwrite": True}
+    elif op == "mat_overwrite_same_types":
+        base = dict(mats[2], props=dict(mats[2]["props"], density=2.5, molar_mass=120.0))
+        prelude.append({"fn": "material_to_db", "item": base})
+        newp = {k: ((v * 1.5 + 1) if isinstance(v, (int, float)) and not isinstance(v, bool) else (str(v) + "-new" if isinstance(v, str) else v)) for k, v in base["props"].items()}
+        target = {"fn": "material_to_db", "item": dict(mats[2], props=newp), "overwrite": True}
     elif op == "mat_insert":
         target = {"fn": "material_to_db", "item": dict(mats[2], props=dict(mats[2]["props"], density=2.5, new_type_for_this_material=3.25))}
     elif op == "mat_overwrite":
